@@ -26,7 +26,7 @@ func init() {
 		Floor:         c06Floor,
 		MinNontrivial: 50,
 		Phases: []fw.Phase{
-			{Name: "dedup", N: func(t fw.Tier) int { return pick(t, 2500, 200000) }, Run: c06Run},
+			{Name: "dedup", N: func(t fw.Tier) int { return pick(t, 10000, 300000) }, Run: c06Run},
 		},
 		Witness: sqlWitness,
 	})
